@@ -41,14 +41,15 @@ def main():
     only = [x for x in os.environ.get("FIXTURES", "").split(",") if x]
     if only:
         jobs = [j for j in jobs if j[1] in only]
-    with ThreadPoolExecutor(max_workers=8) as ex:
-        results = list(ex.map(lambda j: run_fixture(j[2], pids), jobs))
     bad = 0
-    for (kind, name, path, det), res in zip(jobs, results):
+
+    def report(job, res):
+        nonlocal bad
+        kind, name, path, det = job
         if "error" in res:
-            print(f"{kind} {name}: {res['error']}")
+            print(f"{kind} {name}: {res['error']}", flush=True)
             bad += 1
-            continue
+            return
         fired = [p for p, (rc, _) in res.items() if rc == 1]
         closed = [p for p, (rc, _) in res.items() if rc == 2]
         if kind == "refactor":
@@ -59,15 +60,23 @@ def main():
             if expected:
                 status += f" (expected, argued genuine: {sorted(expected)})"
             bad += bool(unexpected)
-            print(f"refactor {name}: {status}  violations={fired} fail-closed={closed}")
+            print(f"refactor {name}: {status}  violations={fired} fail-closed={closed}", flush=True)
             for p in fired + closed:
                 for l in res[p][1]:
-                    print("     ", p, l[:230])
+                    print("     ", p, l[:230], flush=True)
         else:
             want = [p for p in (det or []) if p in pids]
             ok = any(p in fired for p in want) if want else True
             bad += (not ok)
-            print(f"seed {name}: {'OK' if ok else 'MISSED'}  expected={want} fired={fired} fail-closed={closed}")
+            print(f"seed {name}: {'OK' if ok else 'MISSED'}  expected={want} fired={fired} fail-closed={closed}", flush=True)
+
+    # every check already uses all cores; a few fixtures at a time keep them busy without thrashing; results are printed as they arrive
+    from concurrent.futures import as_completed
+
+    with ThreadPoolExecutor(max_workers=int(os.environ.get("REGRESS_JOBS", "3"))) as ex:
+        futs = {ex.submit(run_fixture, j[2], pids): j for j in jobs}
+        for fu in as_completed(futs):
+            report(futs[fu], fu.result())
     sys.exit(1 if bad else 0)
 
 
